@@ -25,6 +25,27 @@ pub enum P {
     Opt(&'static P),
     /// between m and n repetitions (n == 255: unbounded)
     Rep(&'static P, u8, u8),
+    /// zero-width look-ahead: end of input, or the next byte is not an ASCII word byte [0-9A-Za-z_]
+    /// (this is `(?-u:\\b)` right after a word byte)
+    NotWordAhead,
+    /// zero-width: end of input (`$`, `\\z`)
+    AtEnd,
+}
+
+fn is_word(b: u8) -> bool { (b >= b'0' && b <= b'9') || (b >= b'a' && b <= b'z') || (b >= b'A' && b <= b'Z') || b == b'_' }
+
+fn look(p: &P, inp: &[u8], starts: Mask) -> Mask {
+    let n = inp.len();
+    let mut out = 0;
+    let mut s = 0;
+    while s <= n {
+        if bit(starts, s) {
+            let ok = match *p { P::AtEnd => s == n, _ => s == n || !is_word(inp[s]) };
+            if ok { out |= 1 << s; }
+        }
+        s += 1;
+    }
+    out
 }
 
 #[inline]
@@ -100,6 +121,7 @@ pub fn ends(p: &P, inp: &[u8], starts: Mask) -> Mask {
             acc
         }
         P::Opt(q) => starts | ends(q, inp, starts),
+        P::NotWordAhead | P::AtEnd => look(p, inp, starts),
         P::Rep(q, lo, hi) => {
             let mut cur = starts;
             let mut i = 0u8;
@@ -157,6 +179,8 @@ pub fn alive(p: &P, inp: &[u8], starts: Mask) -> Mask {
         P::Star(q) => { let s = ends(p, inp, starts); s | alive(q, inp, s) }
         P::Plus(q) => { let s = starts | ends(p, inp, starts); alive(q, inp, s) }
         P::Opt(q) => starts | alive(q, inp, starts),
+        // a zero-width assertion consumes nothing: what has been read so far stays a viable prefix
+        P::NotWordAhead | P::AtEnd => starts,
         P::Rep(q, lo, hi) => {
             let mut cur = starts;
             let mut out = 0;
@@ -202,7 +226,7 @@ pub struct Def {
 pub fn plain_default(_s: usize, _e: usize) -> u8 { 0 }
 
 #[derive(Clone, Copy, Debug, PartialEq, Eq)]
-pub enum Decision { Emit(u8), DefaultError, Error(u8), Skip, EmitBumped(u8, usize) }
+pub enum Decision { Emit(u8), DefaultError, Error(u8), Skip, EmitBumped(u8, usize), SkipBumped(usize) }
 
 pub fn no_callbacks(_k: u8, _inp: &[u8], _s: usize, _e: usize) -> Decision { Decision::DefaultError }
 
@@ -309,6 +333,7 @@ pub fn expected_item_cb(def: &Def, inp: &[u8], p: usize, max_skips: usize) -> (E
                     Decision::DefaultError => return (Exp::Err { eid: 0, start: pos, end: e }, cbs, cs, ce),
                     Decision::Error(x) => return (Exp::Err { eid: x, start: pos, end: e }, cbs, cs, ce),
                     Decision::Skip => { pos = e; }
+                    Decision::SkipBumped(b) => { pos = e + b; }
                 } },
             },
         }
